@@ -358,6 +358,10 @@ class ResolverMixin:  # pylint: disable=too-few-public-methods
                                         "in class {3!A}. Not overridable ",
                                         obj_type, obj_name, inh_qname,
                                         new_class.classname))
+                        # Set the flavors so that the qualifier keeps
+                        # propagating to (and being enforced in) subclasses
+                        self._init_qualifier(new_quals[inh_qname],
+                                             qualifier_store)
                         new_quals[inh_qname].propagated = True
 
                     else:  # not in new class, add it
@@ -367,6 +371,8 @@ class ResolverMixin:  # pylint: disable=too-few-public-methods
             else:  # not tosubclass, i.e. restricted.
                 if inh_qname in new_quals:
                     if inh_qual.overridable or inh_qual.overridable is None:
+                        self._init_qualifier(new_quals[inh_qname],
+                                             qualifier_store)
                         new_quals[inh_qname].propagated = True
 
                     else:
